@@ -1333,7 +1333,7 @@ parse_version (const char *version,
   if (dot == NULL)
     {
       *minor = 0;
-      return TRUE;
+      return end != version && *end == '\0';
     }
   if (dot != end)
     return FALSE;
